@@ -89,6 +89,7 @@ def run_case(case, acc):
     edges, owner = G.comp_graph(spec)
     kinds = {c['name']: c['kind'] for c in spec['comps']}
     cedges = sorted((a, b) for a, b in edges if kinds[a] != 'ivc' and kinds[b] != 'ivc' and a != b)
+    all_edges = sorted((a, b) for a, b in edges if a != b)
     names = [c['name'] for c in spec['comps'] if c['kind'] != 'ivc']
     comp_sccs = G.sccs(names, set(cedges))
     really_cyclic = any(len(s) > 1 for s in comp_sccs)
@@ -138,16 +139,21 @@ def run_case(case, acc):
             kids = [d for d in declared if d in mem]
             if len(kids) < 2:
                 continue
-            ge = set()
-            for a, b in cedges:
+            # the group-level dependency graph includes the independent-variable components (a child that
+            # only supplies an IndepVarComp output to another child is still its predecessor, and can close a
+            # cycle between two children); only children with traced components can be observed
+            ge_all = set()
+            for a, b in all_edges:
                 ca, cb = _child_of(spec['path'][a], gpath), _child_of(spec['path'][b], gpath)
                 if ca is not None and cb is not None and ca != cb:
-                    ge.add((ca, cb))
-            gs = G.sccs(kids, ge)
+                    ge_all.add((ca, cb))
+            gs_all = G.sccs(declared, ge_all)
             scc_of = {}
-            for k, s in enumerate(gs):
+            for k, s in enumerate(gs_all):
                 for m in s:
                     scc_of[m] = k
+            gs = [[m for m in s if m in mem] for s in gs_all]
+            ge = set((a, b) for a, b in ge_all if a in mem and b in mem)
             dpos = {k: i for i, k in enumerate(kids)}
             if any(scc_of[a] != scc_of[b] and dpos[a] > dpos[b] for a, b in ge):
                 reordered += 1
